@@ -611,14 +611,16 @@ Proof.
   - (* LResClose *) step_inv H; t_setw G Ew.
   - (* LUnreserve *) step_inv H.
     assert (Hno : w_hasino w = false) by (apply (early_hasino s a w G Ew); rewrite Heqp; reflexivity).
-    unfold set_fs_w, set_w; apply (ginv_reshape s); auto.
-    + apply dwf_apply_rm, (g_dwf _ G).
-    + intro i; apply apply_rm_iown.
-    + intro i; apply apply_rm_idata.
-    + intros b e i; apply D_apply_rm_sub.
-    + apply length_upd.
-    + apply rel_upd; [|exact G]. intros x Hx. rewrite Ew in Hx. inversion Hx; subst x.
-      split; [repeat split|]. intro Hh. cbn in Hh. congruence.
+    destruct r; cbn iota beta.
+    all: apply (ginv_reshape s);
+      [exact G|apply dwf_apply_rm, (g_dwf _ G)|intro i; apply apply_rm_iown|intro i; apply apply_rm_idata
+      |intros b0 e0 i0; apply D_apply_rm_sub| |].
+    all: try (rewrite length_upd, ?map_length; reflexivity).
+    all: try (apply rel_map_upd; [|exact G]); try (apply rel_upd; [|exact G]).
+    all: intros x Hx; rewrite Ew in Hx; inversion Hx; subst x.
+    all: rewrite ?nth_error_map, ?Ew; cbn [option_map].
+    all: try (destruct (clear_claim_core (w_base w) Dat w) as [[D1 [D2 [D3 D4]]] P']).
+    all: (split; [repeat split; cbn; assumption || reflexivity|intro Hh; cbn in Hh; congruence]).
   - (* LTmpCreate *) step_inv H.
     + phase_of Hg.
       assert (Hno : w_hasino w = false) by (apply (early_hasino s a w G Ew); rewrite Heqp; reflexivity).
@@ -726,4 +728,502 @@ Proof.
     destruct (g_w_ino _ G _ _ Hw Hh) as [_ Hd].
     exists a, w. rewrite data_of_idata in *. subst i. rewrite Hd in *. repeat split; auto.
   - rewrite data_of_idata, (g_res_empty _ G _ Ho) in Ev. congruence.
+Qed.
+
+(* ---------------------------------------------------------------- the invariant of well-behaved callers *)
+Definition lay_ok (f : fsys) (w : writer) : Prop :=
+  match w_lay w with
+  | LNone => True
+  | LRes => D f (w_base w, Dat) = Some (w_res w) /\ iown f (w_res w) = Some None
+  | LPre => D f (w_base w, Dat) = Some (w_res w) /\ iown f (w_res w) = Some None
+            /\ w_hasino w = true /\ D f (w_base w, Tmp) = Some (w_ino w)
+  | LPost => w_hasino w = true /\ D f (w_base w, Dat) = Some (w_ino w)
+  end.
+
+Definition calmf (w : writer) : Prop :=
+  w_cok w = false /\ w_aborted w = false /\ w_pub w = false /\ w_lostf w = false.
+Definition quiet (w : writer) : Prop := w_hopen w = false /\ calmf w.
+
+Definition rest_ok (w : writer) : Prop :=
+  (w_hopen w = true -> w_lay w = LPre /\ w_cok w = false /\ w_aborted w = false) /\
+  (w_cok w = false -> w_aborted w = false -> w_lay w = LPre \/ w_lay w = LPost) /\
+  (w_cok w = true -> w_pub w = true /\ w_hopen w = false /\ (w_lay w = LPost \/ w_lay w = LNone)
+                     /\ (w_gone w = false -> w_lay w = LPost)) /\
+  (w_pub w = true -> w_cok w = true) /\
+  (w_lostf w = true -> w_aborted w = true).
+
+Definition ph_ok (w : writer) : Prop :=
+  match w_ph w with
+  | PDraw | PCreateFailed => w_lay w = LNone /\ quiet w
+  | PReserved | PResClosed | PUnres _ => w_lay w = LRes /\ quiet w
+  | PReady | PSyncFailed => rest_ok w
+  | PSynced => w_lay w = LPre /\ calmf w
+  | PHClosed => w_lay w = LPre /\ quiet w
+  | PRenamed => w_lay w = LPost /\ quiet w
+  | PAbortClosed | PAbortRmTmp => w_lay w <> LNone /\ quiet w
+  end.
+
+Definition uniq (s : state) : Prop :=
+  forall a1 a2 w1 w2, a1 <> a2 -> W s a1 = Some w1 -> W s a2 = Some w2 ->
+    w_base w1 = w_base w2 -> w_lay w1 = LNone \/ w_lay w2 = LNone.
+
+Record LInv (s : state) : Prop := mkLInv {
+  l_lay : forall a w, W s a = Some w -> lay_ok (s_fs s) w;
+  l_ph : forall a w, W s a = Some w -> ph_ok w;
+  l_uniq : uniq s;
+  (* a temp-file inode sits at its final path only through its own writer's rename *)
+  l_post : forall a w, W s a = Some w -> w_hasino w = true ->
+      D (s_fs s) (w_base w, Dat) = Some (w_ino w) -> w_lay w = LPost
+}.
+
+Lemma linv_init : LInv s0.
+Proof. constructor; unfold uniq, W; simpl; intros; destruct a || destruct a1; discriminate. Qed.
+
+Lemma lay_ok_frame f f' w :
+  (forall e, D f' (w_base w, e) = D f (w_base w, e)) ->
+  (forall i o, iown f i = Some o -> iown f' i = Some o) ->
+  lay_ok f w -> lay_ok f' w.
+Proof.
+  intros HD Ho. unfold lay_ok. destruct (w_lay w); rewrite ?HD; intuition.
+Qed.
+
+Lemma clear_claim_id b e w : w_lay w = LNone -> clear_claim b e w = w.
+Proof. intro H. unfold clear_claim. rewrite H. destruct (str_eqb (w_base w) b), e; reflexivity. Qed.
+
+Lemma clear_claim_other b e w : w_base w <> b -> clear_claim b e w = w.
+Proof.
+  intro H. unfold clear_claim. destruct (str_eqb (w_base w) b) eqn:E; [|reflexivity].
+  apply str_eqb_eq in E. contradiction.
+Qed.
+
+(* A: the step changes neither the directory nor the writer's claim *)
+Lemma linv_same_lay s f' a w w' rd sc :
+  LInv s -> W s a = Some w ->
+  (forall n, D f' n = D (s_fs s) n) ->
+  (forall i o, iown (s_fs s) i = Some o -> iown f' i = Some o) ->
+  w_base w' = w_base w -> w_res w' = w_res w -> w_ino w' = w_ino w -> w_hasino w' = w_hasino w ->
+  w_lay w' = w_lay w -> ph_ok w' ->
+  LInv (mkS f' (upd a w' (s_ws s)) rd sc).
+Proof.
+  intros L Hw HD Ho Eb Er Ei Eh El Hp.
+  assert (HW : forall a', W (mkS f' (upd a w' (s_ws s)) rd sc) a' = if a' =? a then Some w' else W s a')
+    by (intro a'; apply (W_set_w s a w w' a' Hw)).
+  constructor.
+  - intros a' x Hx. rewrite HW in Hx. cbn [s_fs]. destruct (a' =? a) eqn:E.
+    + inversion Hx; subst x. pose proof (l_lay _ L _ _ Hw) as Hl.
+      unfold lay_ok in *. rewrite El, Eb, Er, Ei, Eh. destruct (w_lay w); rewrite ?HD; intuition.
+    + apply (lay_ok_frame (s_fs s)); [intro e; apply HD|exact Ho|apply (l_lay _ L _ _ Hx)].
+  - intros a' x Hx. rewrite HW in Hx. destruct (a' =? a); [inversion Hx; subst; exact Hp|apply (l_ph _ L _ _ Hx)].
+  - intros a1 a2 x1 x2 Hne H1 H2 Eb12. rewrite HW in H1, H2.
+    destruct (a1 =? a) eqn:E1, (a2 =? a) eqn:E2.
+    + apply Nat.eqb_eq in E1, E2. congruence.
+    + inversion H1; subst x1. apply Nat.eqb_eq in E1; subst a1. rewrite El.
+      apply (l_uniq _ L a a2 w x2 Hne Hw H2). congruence.
+    + inversion H2; subst x2. apply Nat.eqb_eq in E2; subst a2. rewrite El.
+      apply (l_uniq _ L a1 a x1 w Hne H1 Hw). congruence.
+    + apply (l_uniq _ L a1 a2 x1 x2 Hne H1 H2 Eb12).
+  - intros a' x Hx Hh Hd. rewrite HW in Hx. cbn [s_fs] in Hd. rewrite HD in Hd. destruct (a' =? a).
+    + inversion Hx; subst x. rewrite El. apply (l_post _ L _ _ Hw); congruence.
+    + apply (l_post _ L _ _ Hx Hh Hd).
+Qed.
+
+(* B: the step acts on the names of one base b, on behalf of writer a; every other writer of
+   that base has no claim *)
+Lemma linv_actor s f' ws' rd sc a w w' b e :
+  LInv s -> W s a = Some w ->
+  (forall n, fst n <> b -> D f' n = D (s_fs s) n) ->
+  (forall i o, iown (s_fs s) i = Some o -> iown f' i = Some o) ->
+  nth_error ws' a = Some w' ->
+  (forall a', a' <> a -> nth_error ws' a' = W s a' \/ nth_error ws' a' = option_map (clear_claim b e) (W s a')) ->
+  (forall a' w2, a' <> a -> W s a' = Some w2 -> w_base w2 = b -> w_lay w2 = LNone) ->
+  w_base w' = b -> lay_ok f' w' -> ph_ok w' ->
+  (w_hasino w' = true -> D f' (b, Dat) = Some (w_ino w') -> w_lay w' = LPost) ->
+  (forall a' w2, a' <> a -> W s a' = Some w2 -> w_base w2 = b -> w_hasino w2 = true ->
+     D f' (b, Dat) <> Some (w_ino w2)) ->
+  LInv (mkS f' ws' rd sc).
+Proof.
+  intros L Hw HD Ho Ha Hoth Hnone Eb Hl Hp Hpost Hpo.
+  assert (Hsame : forall a' x, a' <> a -> nth_error ws' a' = Some x -> W s a' = Some x).
+  { intros a' x Hne Hx. destruct (Hoth a' Hne) as [E|E]; rewrite E in Hx; [exact Hx|].
+    destruct (W s a') as [w2|] eqn:E2; [|discriminate]. simpl in Hx. inversion Hx; subst x. f_equal.
+    destruct (str_eqb (w_base w2) b) eqn:Eq.
+    - apply str_eqb_eq in Eq. symmetry. apply clear_claim_id. apply (Hnone a' w2 Hne E2 Eq).
+    - symmetry. apply clear_claim_other. apply str_eqb_neq in Eq. exact Eq. }
+  constructor; unfold W; cbn [s_ws s_fs].
+  - intros a' x Hx. destruct (Nat.eq_dec a' a) as [->|Hne].
+    + rewrite Ha in Hx. inversion Hx; subst x. exact Hl.
+    + pose proof (Hsame _ _ Hne Hx) as Hx0.
+      destruct (str_eqb (w_base x) b) eqn:Eq.
+      * apply str_eqb_eq in Eq. unfold lay_ok. rewrite (Hnone _ _ Hne Hx0 Eq). exact I.
+      * apply str_eqb_neq in Eq. apply (lay_ok_frame (s_fs s)); [|exact Ho|apply (l_lay _ L _ _ Hx0)].
+        intro e0. apply HD. exact Eq.
+  - intros a' x Hx. destruct (Nat.eq_dec a' a) as [->|Hne].
+    + rewrite Ha in Hx. inversion Hx; subst x. exact Hp.
+    + apply (l_ph _ L a'). apply (Hsame _ _ Hne Hx).
+  - unfold uniq, W; cbn [s_ws]. intros a1 a2 x1 x2 Hne H1 H2 Eb12.
+    destruct (Nat.eq_dec a1 a) as [->|N1]; destruct (Nat.eq_dec a2 a) as [->|N2].
+    + congruence.
+    + right. rewrite Ha in H1. inversion H1; subst x1.
+      apply (Hnone a2 x2 N2 (Hsame _ _ N2 H2)). congruence.
+    + left. rewrite Ha in H2. inversion H2; subst x2.
+      apply (Hnone a1 x1 N1 (Hsame _ _ N1 H1)). congruence.
+    + apply (l_uniq _ L a1 a2 x1 x2 Hne (Hsame _ _ N1 H1) (Hsame _ _ N2 H2) Eb12).
+  - intros a' x Hx Hh Hd. destruct (Nat.eq_dec a' a) as [->|Hne].
+    + rewrite Ha in Hx. inversion Hx; subst x. rewrite Eb in Hd. apply Hpost; assumption.
+    + pose proof (Hsame _ _ Hne Hx) as Hx0.
+      destruct (str_eqb (w_base x) b) eqn:Eq.
+      * apply str_eqb_eq in Eq. exfalso. rewrite Eq in Hd. apply (Hpo a' x Hne Hx0 Eq Hh Hd).
+      * apply str_eqb_neq in Eq. apply (l_post _ L _ _ Hx0 Hh). rewrite <- HD; [exact Hd|exact Eq].
+Qed.
+
+(* every other writer of the actor's base has no claim, because the actor has one *)
+Lemma others_none s a w :
+  LInv s -> W s a = Some w -> w_lay w <> LNone ->
+  forall a' w2, a' <> a -> W s a' = Some w2 -> w_base w2 = w_base w -> w_lay w2 = LNone.
+Proof.
+  intros L Hw Hl a' w2 Hne H2 Eb.
+  destruct (l_uniq _ L a' a w2 w Hne H2 Hw Eb) as [H|H]; [exact H|contradiction].
+Qed.
+
+Lemma lay_present s a w : LInv s -> W s a = Some w -> w_lay w <> LNone -> D (s_fs s) (w_base w, Dat) <> None.
+Proof.
+  intros L Hw Hl. pose proof (l_lay _ L _ _ Hw) as H. unfold lay_ok in H.
+  destruct (w_lay w); [contradiction| | |]; intuition congruence.
+Qed.
+
+Lemma nth_upd_map_other (ws : list writer) a x (g : writer -> writer) a' : a' <> a ->
+  nth_error (upd a x (map g ws)) a' = option_map g (nth_error ws a').
+Proof. intro H. rewrite nth_error_upd_other by exact H. apply nth_error_map. Qed.
+
+Lemma clear_claim_fields b e w :
+  let w' := clear_claim b e w in
+  w_base w' = w_base w /\ w_res w' = w_res w /\ w_ino w' = w_ino w /\ w_hasino w' = w_hasino w /\
+  w_ph w' = w_ph w /\ w_hopen w' = w_hopen w /\ w_pub w' = w_pub w /\ w_lostf w' = w_lostf w /\
+  w_cok w' = w_cok w /\ w_aborted w' = w_aborted w /\ w_written w' = w_written w.
+Proof.
+  unfold clear_claim. destruct (str_eqb (w_base w) b); [|cbn; repeat split].
+  destruct e, (w_lay w); try destruct (w_cok w) eqn:E; cbn; repeat split; auto.
+Qed.
+
+Lemma clear_claim_lay b e w :
+  w_lay (clear_claim b e w) =
+    if str_eqb (w_base w) b then
+      match e, w_lay w with
+      | Dat, _ => LNone
+      | Tmp, LPre => LRes
+      | Tmp, l => l
+      end
+    else w_lay w.
+Proof.
+  unfold clear_claim. destruct (str_eqb (w_base w) b); [|reflexivity].
+  destruct e; destruct (w_lay w) eqn:El; try destruct (w_cok w); cbn; auto.
+Qed.
+
+Lemma linv_begin s : LInv s -> LInv (mkS (s_fs s) (s_ws s ++ [w0]) (s_rd s) (s_sc s)).
+Proof.
+  intro L.
+  assert (HW : forall a w, W (mkS (s_fs s) (s_ws s ++ [w0]) (s_rd s) (s_sc s)) a = Some w ->
+                           W s a = Some w \/ w = w0).
+  { unfold W; simpl. intros a w H. destruct (lt_dec a (length (s_ws s))).
+    - rewrite nth_error_app1 in H by lia. auto.
+    - rewrite nth_error_app2 in H by lia. destruct (a - length (s_ws s)) as [|k]; simpl in H; [inversion H; auto|destruct k; discriminate]. }
+  constructor; cbn [s_fs].
+  - intros a w H. destruct (HW _ _ H) as [H1| ->]; [apply (l_lay _ L _ _ H1)|exact I].
+  - intros a w H. destruct (HW _ _ H) as [H1| ->]; [apply (l_ph _ L _ _ H1)|].
+    unfold ph_ok, quiet, calmf; cbn. auto 10.
+  - intros a1 a2 x1 x2 Hne H1 H2 Eb.
+    destruct (HW _ _ H1) as [K1| ->]; [|left; reflexivity].
+    destruct (HW _ _ H2) as [K2| ->]; [|right; reflexivity].
+    apply (l_uniq _ L a1 a2 x1 x2 Hne K1 K2 Eb).
+  - intros a w H Hh Hd. destruct (HW _ _ H) as [H1| ->]; [apply (l_post _ L _ _ H1 Hh Hd)|discriminate].
+Qed.
+
+(* C: removal by name on behalf of no writer (TombstoneFile, Update), allowed by the guard *)
+Lemma linv_rm s b e rd sc :
+  LInv s ->
+  forallb (fun w => negb (str_eqb (w_base w) b)
+                    || match w_lay w with LNone => true | _ => false end
+                    || w_cok w || w_aborted w) (s_ws s) = true ->
+  LInv (mkS (fs_unlink (b, e) (s_fs s)) (map (clear_claim b e) (s_ws s)) rd sc).
+Proof.
+  intros L Hg.
+  assert (HW : forall a w', W (mkS (fs_unlink (b, e) (s_fs s)) (map (clear_claim b e) (s_ws s)) rd sc) a = Some w' ->
+             exists w, W s a = Some w /\ w' = clear_claim b e w).
+  { unfold W; cbn [s_ws]. intros a w' H. rewrite nth_error_map in H.
+    destruct (nth_error (s_ws s) a) as [w|]; [|discriminate]. inversion H. exists w; auto. }
+  assert (Hgw : forall a w, W s a = Some w -> w_base w = b ->
+                 w_lay w = LNone \/ w_cok w = true \/ w_aborted w = true).
+  { intros a w Hw Eb. rewrite forallb_forall in Hg. specialize (Hg w (nth_error_In _ _ Hw)).
+    subst b. rewrite str_eqb_refl in Hg. cbn in Hg.
+    destruct (w_lay w); auto; destruct (w_cok w); auto; destruct (w_aborted w); auto; discriminate. }
+  constructor; cbn [s_fs].
+  - intros a w' H. destruct (HW _ _ H) as [w [Hw ->]]. pose proof (l_lay _ L _ _ Hw) as Hl.
+    destruct (clear_claim_fields b e w) as [F1 [F2 [F3 [F4 _]]]].
+    pose proof (clear_claim_lay b e w) as Fl.
+    unfold lay_ok in *. rewrite F1, F2, F3, F4, Fl.
+    destruct (str_eqb (w_base w) b) eqn:Eb.
+    + apply str_eqb_eq in Eb. rewrite Eb in *.
+      assert (E1 : fname_eqb (b, Dat) (b, Tmp) = false) by (apply fname_eqb_neq; congruence).
+      destruct e; [exact I|].
+      destruct (w_lay w); rewrite ?D_unlink, ?E1, ?iown_unlink; intuition.
+    + apply str_eqb_neq in Eb.
+      assert (E1 : forall x, fname_eqb (w_base w, x) (b, e) = false) by (intro x; apply fname_eqb_neq; congruence).
+      destruct (w_lay w); rewrite ?D_unlink, ?E1, ?iown_unlink; exact Hl.
+  - intros a w' H. destruct (HW _ _ H) as [w [Hw ->]]. pose proof (l_ph _ L _ _ Hw) as Hp.
+    destruct (str_eqb (w_base w) b) eqn:Eb; [|rewrite clear_claim_other; [exact Hp|apply str_eqb_neq; exact Eb]].
+    apply str_eqb_eq in Eb.
+    assert (Hcase : w_lay w = LNone \/ w_lay w <> LNone) by (destruct (w_lay w); auto; right; congruence).
+    destruct Hcase as [Hn|Hnn]; [rewrite clear_claim_id; assumption|].
+    destruct (Hgw _ _ Hw Eb) as [Hn|Hca]; [contradiction|].
+    destruct (clear_claim_fields b e w) as [F1 [F2 [F3 [F4 [F5 [F6 [F7 [F8 [F9 [F10 F11]]]]]]]]]].
+    pose proof (clear_claim_lay b e w) as Fl. rewrite Eb, str_eqb_refl in Fl.
+    unfold ph_ok, rest_ok, quiet, calmf in *. rewrite F5, F6, F7, F8, F9, F10, Fl.
+    assert (Hgone : w_cok w = true -> w_lay w <> LNone -> e = Dat -> w_gone (clear_claim b e w) = true).
+    { intros Hc Hl He. unfold clear_claim. rewrite Eb, str_eqb_refl, He, Hc. destruct (w_lay w); [contradiction|reflexivity..]. }
+    destruct (w_ph w); try (destruct Hca as [Hc|Hc]; intuition congruence).
+    all: destruct e; destruct (w_lay w) eqn:El; destruct Hca as [Hc|Hc];
+      intuition (try congruence).
+    all: try (exfalso; assert (Hx : w_gone (clear_claim b Dat w) = true) by (apply Hgone; congruence); congruence).
+  - intros a1 a2 x1 x2 Hne H1 H2 Eb.
+    destruct (HW _ _ H1) as [w1 [K1 ->]]. destruct (HW _ _ H2) as [w2 [K2 ->]].
+    destruct (clear_claim_fields b e w1) as [F1 _]. destruct (clear_claim_fields b e w2) as [G1 _].
+    rewrite F1, G1 in Eb. rewrite !clear_claim_lay.
+    destruct (l_uniq _ L a1 a2 w1 w2 Hne K1 K2 Eb) as [E|E]; rewrite E; [left|right];
+      match goal with |- context [str_eqb ?x ?y] => destruct (str_eqb x y) end; destruct e; reflexivity.
+  - intros a w' H Hh Hd. destruct (HW _ _ H) as [w [Hw ->]].
+    destruct (clear_claim_fields b e w) as [F1 [F2 [F3 [F4 _]]]].
+    rewrite F1, F3 in Hd. rewrite F4 in Hh. rewrite D_unlink in Hd.
+    destruct (fname_eqb (w_base w, Dat) (b, e)) eqn:E; [discriminate|].
+    pose proof (l_post _ L _ _ Hw Hh Hd) as Hl. rewrite clear_claim_lay, Hl.
+    destruct (str_eqb (w_base w) b) eqn:Eb; [|reflexivity].
+    apply str_eqb_eq in Eb. destruct e; [|reflexivity].
+    rewrite Eb, fname_eqb_refl in E. discriminate.
+Qed.
+
+(* ---------------------------------------------------------------- LInv is preserved by guarded steps *)
+
+Ltac ph_solve Hp :=
+  unfold ph_ok, rest_ok, quiet, calmf in *; cbn in *;
+  repeat match goal with E : w_ph _ = _ |- _ => rewrite E in *; clear E end;
+  cbn in *; intuition (try congruence).
+
+Ltac t_same L Ew :=
+  repeat match goal with |- context [if ?b then _ else _] => is_var b; destruct b end;
+  unfold set_w, set_fs_w;
+  (eapply (linv_same_lay _ _ _ _ _ _ _ L Ew);
+   [intro; reflexivity | intros ? ? Hio; rewrite ?iown_append, ?iown_fsync, ?iown_dirsync; exact Hio
+   | reflexivity | reflexivity | reflexivity | reflexivity | reflexivity | ]).
+
+Ltac ready_phase := match goal with Hr : is_ready ?w = true |- _ =>
+  unfold is_ready in Hr; destruct (w_ph w) eqn:?; try discriminate Hr end;
+  try match goal with Hp : ph_ok ?w, E : w_ph ?w = PReady |- _ => unfold ph_ok in Hp; rewrite E in Hp end.
+
+Lemma rest_hopen w : rest_ok w -> w_hopen w = true -> w_lay w = LPre /\ calmf w.
+Proof.
+  unfold rest_ok, calmf. intros [H1 [H2 [H3 [H4 H5]]]] Hh. destruct (H1 Hh) as [E1 [E2 E3]].
+  repeat split; auto.
+  - destruct (w_pub w); [rewrite H4 in E2 by reflexivity; discriminate|reflexivity].
+  - destruct (w_lostf w); [rewrite H5 in E3 by reflexivity; discriminate|reflexivity].
+Qed.
+
+Lemma rest_nopub w : rest_ok w -> w_pub w = false -> w_aborted w = false ->
+  (w_lay w = LPre \/ w_lay w = LPost) /\ calmf w.
+Proof.
+  unfold rest_ok, calmf. intros [H1 [H2 [H3 [H4 H5]]]] Hp Ha.
+  assert (Hc : w_cok w = false).
+  { destruct (w_cok w); [|reflexivity]. destruct (H3 eq_refl) as [E _]. congruence. }
+  repeat split; auto.
+  destruct (w_lostf w); [rewrite H5 in Ha by reflexivity; discriminate|reflexivity].
+Qed.
+
+Lemma linv_step c s l s' : GInv s -> LInv s -> guard_ok s l = true -> step c s l = Some s' -> LInv s'.
+Proof.
+  intros G L Hgd H. destruct l; cbn [step] in H.
+  - (* LBegin *) step_inv H. apply linv_begin; exact L.
+  - (* LReserve *) step_inv H.
+    + phase_of Hg. pose proof (l_ph _ L _ _ Ew) as Hp.
+      assert (Habs : D (s_fs s) (b, Dat) = None).
+      { unfold cres_ok in *. rewrite present_D in *. destruct (D (s_fs s) (b, Dat)); [discriminate|reflexivity]. }
+      unfold set_fs_w. eapply (linv_actor s _ _ _ _ a w _ b Dat L Ew).
+      * intros n Hn. rewrite D_create. destruct (fname_eqb n (b, Dat)) eqn:E; [|reflexivity].
+        apply fname_eqb_eq in E. subst n. contradiction Hn. reflexivity.
+      * intros i o Hio. rewrite iown_create. pose proof (iown_lt _ _ _ Hio) as Hlt.
+        destruct (i =? length (f_ino (s_fs s))) eqn:E; [apply Nat.eqb_eq in E; lia|exact Hio].
+      * apply (nth_error_upd_same _ _ _ _ Ew).
+      * intros a' Hne. left. apply nth_error_upd_other. exact Hne.
+      * intros a' w2 Hne H2 Eb. destruct (w_lay w2) eqn:El; [reflexivity| | |];
+          exfalso; apply (lay_present s a' w2 L H2); rewrite ?El, ?Eb; congruence.
+      * reflexivity.
+      * unfold lay_ok, set_reserved. cbn [w_lay w_base w_res w_ino w_hasino]. rewrite D_create, fname_eqb_refl, iown_create, Nat.eqb_refl. auto.
+      * ph_solve Hp.
+      * cbn. intro Hh. rewrite (early_hasino s a w G Ew) in Hh; [discriminate|rewrite Heqp; reflexivity].
+      * intros a' w2 Hne H2 Eb Hh. rewrite D_create, fname_eqb_refl. intro E. inversion E.
+        destruct (g_w_ino _ G _ _ H2 Hh) as [Hio _]. apply iown_lt in Hio. lia.
+    + phase_of Hg. pose proof (l_ph _ L _ _ Ew) as Hp. t_same L Ew. ph_solve Hp.
+    + phase_of Hg. pose proof (l_ph _ L _ _ Ew) as Hp. t_same L Ew. ph_solve Hp.
+  - (* LGiveUp *) step_inv H. phase_of Hg. pose proof (l_ph _ L _ _ Ew) as Hp. t_same L Ew. ph_solve Hp.
+  - (* LResClose *) step_inv H. phase_of Hg. pose proof (l_ph _ L _ _ Ew) as Hp. t_same L Ew; ph_solve Hp.
+  - (* LUnreserve *) step_inv H. pose proof (l_ph _ L _ _ Ew) as Hp.
+    assert (Hlay : w_lay w = LRes) by (unfold ph_ok in Hp; rewrite Heqp in Hp; apply Hp).
+    eapply (linv_actor s _ _ _ _ a w _ (w_base w) Dat L Ew).
+    + intros n Hn. destruct r; cbn [apply_rm]; try reflexivity. rewrite D_unlink.
+      destruct (fname_eqb n (w_base w, Dat)) eqn:E; [|reflexivity].
+      apply fname_eqb_eq in E. subst n. contradiction Hn. reflexivity.
+    + intros i o Hio. rewrite apply_rm_iown. exact Hio.
+    + apply nth_error_upd_same with (y := match r with ROk => clear_claim (w_base w) Dat w | _ => w end).
+      destruct r; rewrite ?nth_error_map, ?Ew; reflexivity.
+    + intros a' Hne. rewrite nth_error_upd_other by exact Hne.
+      destruct r; [right; apply nth_error_map|left; reflexivity|left; reflexivity].
+    + apply (others_none s a w L Ew). congruence.
+    + destruct r; rewrite ?nth_error_map, ?Ew; cbn [option_map]; cbn;
+        try apply (clear_claim_fields (w_base w) Dat w); reflexivity.
+    + unfold lay_ok. cbn. exact I.
+    + destruct (clear_claim_fields (w_base w) Dat w) as [F1 [F2 [F3 [F4 [F5 [F6 [F7 [F8 [F9 [F10 F11]]]]]]]]]].
+      destruct r, again; rewrite ?nth_error_map, ?Ew; cbn [option_map];
+        unfold ph_ok, quiet, calmf in *; rewrite Heqp in Hp; cbn; rewrite ?F6, ?F7, ?F8, ?F9, ?F10; intuition.
+    + intro Hh. exfalso.
+      assert (Hno : w_hasino w = false) by (apply (early_hasino s a w G Ew); rewrite Heqp; reflexivity).
+      destruct (clear_claim_fields (w_base w) Dat w) as [_ [_ [_ [F4 _]]]].
+      destruct r; rewrite ?nth_error_map, ?Ew in Hh; cbn in Hh; congruence.
+    + intros a' w2 Hne H2 Eb Hh Hd.
+      assert (Hl2 : w_lay w2 = LNone) by (apply (others_none s a w L Ew ltac:(congruence) a' w2 Hne H2 Eb)).
+      assert (Hold : D (s_fs s) (w_base w, Dat) = Some (w_ino w2)).
+      { destruct r; cbn [apply_rm] in Hd; try exact Hd. rewrite D_unlink, fname_eqb_refl in Hd. discriminate. }
+      rewrite <- Eb in Hold. pose proof (l_post _ L _ _ H2 Hh Hold). congruence.
+  - (* LTmpCreate *) step_inv H.
+    + phase_of Hg. pose proof (l_ph _ L _ _ Ew) as Hp. pose proof (l_lay _ L _ _ Ew) as Hl.
+      assert (Hlay : w_lay w = LRes) by (unfold ph_ok in Hp; rewrite Heqp in Hp; apply Hp).
+      unfold lay_ok in Hl. rewrite Hlay in Hl. destruct Hl as [Hd Hio].
+      unfold set_fs_w. eapply (linv_actor s _ _ _ _ a w _ (w_base w) Tmp L Ew).
+      * intros n Hn. rewrite D_create. destruct (fname_eqb n (w_base w, Tmp)) eqn:E; [|reflexivity].
+        apply fname_eqb_eq in E. subst n. contradiction Hn. reflexivity.
+      * intros i o Hi. rewrite iown_create. pose proof (iown_lt _ _ _ Hi) as Hlt.
+        destruct (i =? length (f_ino (s_fs s))) eqn:E; [apply Nat.eqb_eq in E; lia|exact Hi].
+      * apply (nth_error_upd_same _ _ _ _ Ew).
+      * intros a' Hne. left. apply nth_error_upd_other. exact Hne.
+      * apply (others_none s a w L Ew). congruence.
+      * reflexivity.
+      * unfold lay_ok, set_tmp. cbn [w_lay w_base w_res w_ino w_hasino].
+        rewrite !D_create, !iown_create, fname_eqb_refl.
+        assert (E1 : fname_eqb (w_base w, Dat) (w_base w, Tmp) = false) by (apply fname_eqb_neq; congruence).
+        rewrite E1. pose proof (iown_lt _ _ _ Hio) as Hlt.
+        assert (E2 : (w_res w =? length (f_ino (s_fs s))) = false) by (apply Nat.eqb_neq; lia).
+        rewrite E2. auto.
+      * ph_solve Hp.
+      * unfold set_tmp; cbn [w_hasino w_ino w_lay]. intros _. rewrite D_create.
+        assert (E1 : fname_eqb (w_base w, Dat) (w_base w, Tmp) = false) by (apply fname_eqb_neq; congruence).
+        rewrite E1, Hd. intro E. inversion E. apply iown_lt in Hio. lia.
+      * intros a' w2 Hne H2 Eb Hh Hd2. rewrite D_create in Hd2.
+        assert (E1 : fname_eqb (w_base w, Dat) (w_base w, Tmp) = false) by (apply fname_eqb_neq; congruence).
+        rewrite E1 in Hd2.
+        assert (Hl2 : w_lay w2 = LNone) by (apply (others_none s a w L Ew ltac:(congruence) a' w2 Hne H2 Eb)).
+        rewrite <- Eb in Hd2. pose proof (l_post _ L _ _ H2 Hh Hd2). congruence.
+    + phase_of Hg. pose proof (l_ph _ L _ _ Ew) as Hp. t_same L Ew. ph_solve Hp.
+    + phase_of Hg. pose proof (l_ph _ L _ _ Ew) as Hp. t_same L Ew. ph_solve Hp.
+  - (* LWrite *) step_inv H. pose proof (l_ph _ L _ _ Ew) as Hp. ready_phase. t_same L Ew. ph_solve Hp.
+  - (* LLost *) step_inv H. pose proof (l_ph _ L _ _ Ew) as Hp. ready_phase.
+    assert (Hr : rest_ok w) by exact Hp.
+    assert (Hlf : w_lostf w = true).
+    { unfold lost in *. destruct (w_lostf w); [reflexivity|]. cbn in *.
+      unfold lost_now in *. destruct (w_hopen w) eqn:Eh; [|cbn in *; congruence].
+      destruct (rest_hopen _ Hr Eh) as [El _]. pose proof (l_lay _ L _ _ Ew) as Hl. unfold lay_ok in Hl.
+      rewrite El in Hl. destruct Hl as [_ [_ [_ Hd]]]. unfold D in Hd. rewrite Hd, Nat.eqb_refl in *. cbn in *. congruence. }
+    destruct in_abort; t_same L Ew; ph_solve Hp.
+  - (* LSync *) step_inv H; pose proof (l_ph _ L _ _ Ew) as Hp; ready_phase.
+    + cbn in *. destruct (rest_hopen _ Hp ltac:(assumption)) as [El Hc]. t_same L Ew. ph_solve Hp.
+    + t_same L Ew. ph_solve Hp.
+  - (* LHClose *) step_inv H; pose proof (l_ph _ L _ _ Ew) as Hp; t_same L Ew; ph_solve Hp.
+  - (* LRename *) step_inv H.
+    + phase_of Hg. pose proof (l_ph _ L _ _ Ew) as Hp. pose proof (l_lay _ L _ _ Ew) as Hl.
+      assert (Hlay : w_lay w = LPre) by (unfold ph_ok in Hp; rewrite Heqp in Hp; apply Hp).
+      unfold lay_ok in Hl. rewrite Hlay in Hl. destruct Hl as [Hd [Hio [Hh Ht]]].
+      assert (En : n = w_ino w) by (unfold D in Ht; congruence). subst n.
+      rewrite Nat.eqb_refl, nth_error_map, Ew. cbn [option_map].
+      destruct (clear_claim_fields (w_base w) Dat w) as [F1 [F2 [F3 [F4 [F5 [F6 [F7 [F8 [F9 [F10 F11]]]]]]]]]].
+      assert (Hne : (w_base w, Tmp) <> (w_base w, Dat)) by congruence.
+      assert (Hpr : D (s_fs s) (w_base w, Tmp) <> None) by congruence.
+      eapply (linv_actor s _ _ _ _ a w _ (w_base w) Dat L Ew).
+      * intros n Hn. rewrite (D_rename _ _ _ _ Hne Hpr).
+        destruct (fname_eqb n (w_base w, Dat)) eqn:E1; [apply fname_eqb_eq in E1; subst n; contradiction Hn; reflexivity|].
+        destruct (fname_eqb n (w_base w, Tmp)) eqn:E2; [apply fname_eqb_eq in E2; subst n; contradiction Hn; reflexivity|].
+        reflexivity.
+      * intros i o Hi. rewrite iown_rename. exact Hi.
+      * apply nth_error_upd_same with (y := clear_claim (w_base w) Dat w). rewrite nth_error_map, Ew. reflexivity.
+      * intros a' Hne'. right. rewrite nth_error_upd_other by exact Hne'. apply nth_error_map.
+      * apply (others_none s a w L Ew). congruence.
+      * cbn. exact F1.
+      * unfold lay_ok. cbn. rewrite F1, F3, F4, (D_rename _ _ _ _ Hne Hpr), fname_eqb_refl. auto.
+      * unfold ph_ok, quiet, calmf in *. rewrite Heqp in Hp. cbn. rewrite F6, F7, F8, F9, F10. intuition.
+      * cbn. auto.
+      * intros a' w2 Hne' H2 Eb Hh2 Hd2. rewrite (D_rename _ _ _ _ Hne Hpr), fname_eqb_refl, Ht in Hd2.
+        inversion Hd2 as [Ei].
+        destruct (g_w_ino _ G _ _ Ew Hh) as [Ho1 _]. destruct (g_w_ino _ G _ _ H2 Hh2) as [Ho2 _].
+        rewrite Ei in Ho1. rewrite Ho1 in Ho2. inversion Ho2. congruence.
+    + phase_of Hg. pose proof (l_ph _ L _ _ Ew) as Hp. t_same L Ew. ph_solve Hp.
+  - (* LDirSync *) step_inv H; phase_of Hg; pose proof (l_ph _ L _ _ Ew) as Hp; t_same L Ew; ph_solve Hp.
+  - (* LAbortHClose *) step_inv H. pose proof (l_ph _ L _ _ Ew) as Hp. ready_phase.
+    cbn [guard_ok] in Hgd. rewrite Ew in Hgd.
+    destruct (rest_nopub _ Hp) as [Hl Hc]; [destruct (w_pub w); cbn in *; congruence|destruct (w_aborted w); cbn in *; congruence|].
+    t_same L Ew. ph_solve Hp.
+  - (* LAbortRm *) step_inv H. pose proof (l_ph _ L _ _ Ew) as Hp. pose proof (l_lay _ L _ _ Ew) as Hl.
+    destruct (clear_claim_fields (w_base w) e w) as [F1 [F2 [F3 [F4 [F5 [F6 [F7 [F8 [F9 [F10 F11]]]]]]]]]].
+    pose proof (clear_claim_lay (w_base w) e w) as Fl. rewrite str_eqb_refl in Fl.
+    assert (Hq : w_lay w <> LNone /\ quiet w) by (unfold ph_ok in Hp; phase_of Hg; destruct e; try discriminate Hg; exact Hp).
+    destruct Hq as [Hnn Hq].
+    assert (HDf : forall n, fst n <> w_base w -> D (apply_rm r (w_base w, e) (s_fs s)) n = D (s_fs s) n).
+    { intros n Hn. destruct r; cbn [apply_rm]; try reflexivity. rewrite D_unlink.
+      destruct (fname_eqb n (w_base w, e)) eqn:E; [|reflexivity].
+      apply fname_eqb_eq in E. subst n. contradiction Hn. reflexivity. }
+    eapply (linv_actor s _ _ _ _ a w _ (w_base w) e L Ew HDf).
+    + intros i o Hi. rewrite apply_rm_iown. exact Hi.
+    + apply nth_error_upd_same with (y := match r with ROk => clear_claim (w_base w) e w | _ => w end).
+      destruct r; rewrite ?nth_error_map, ?Ew; reflexivity.
+    + intros a' Hne. rewrite nth_error_upd_other by exact Hne.
+      destruct r; [right; apply nth_error_map|left; reflexivity|left; reflexivity].
+    + apply (others_none s a w L Ew Hnn).
+    + destruct r, e; rewrite ?nth_error_map, ?Ew; cbn [option_map]; destruct (own_check c); cbn; auto.
+    + (* lay_ok *)
+      unfold lay_ok in *.
+      destruct r, e; rewrite ?nth_error_map, ?Ew; cbn [option_map apply_rm]; destruct (own_check c); cbn;
+        rewrite ?F1, ?F2, ?F3, ?F4, ?Fl; try exact I; try exact Hl.
+      all: rewrite !D_unlink.
+      all: assert (E1 : fname_eqb (w_base w, Dat) (w_base w, Tmp) = false) by (apply fname_eqb_neq; congruence).
+      all: rewrite ?E1, ?iown_unlink, ?fname_eqb_refl.
+      all: destruct (w_lay w); intuition.
+    + (* ph_ok *)
+      unfold ph_ok, rest_ok, quiet, calmf in *.
+      phase_of Hg; destruct e; try discriminate Hg;
+      destruct r; rewrite ?nth_error_map, ?Ew; cbn [option_map]; destruct (own_check c); cbn;
+        rewrite ?F6, ?F7, ?F8, ?F9, ?F10, ?Fl; intuition (try congruence).
+      all: destruct (w_lay w); congruence.
+    + (* own inode at the final path *)
+      intros Hh Hd.
+      assert (E1 : fname_eqb (w_base w, Dat) (w_base w, Tmp) = false) by (apply fname_eqb_neq; congruence).
+      assert (Hh0 : w_hasino w = true) by (destruct r, e; rewrite ?nth_error_map, ?Ew in Hh; cbn [option_map] in Hh; destruct (own_check c); cbn in Hh; congruence).
+      destruct e.
+      * (* removing the final path *)
+        destruct r; rewrite ?nth_error_map, ?Ew in Hd |- *; cbn [option_map apply_rm] in Hd |- *;
+          destruct (own_check c); cbn in Hd |- *; rewrite ?F3 in Hd.
+        all: try (rewrite D_unlink, fname_eqb_refl in Hd; discriminate).
+        all: try (unfold rres_ok in *; rewrite present_D in *; rewrite Hd in *; discriminate).
+        all: apply (l_post _ L _ _ Ew Hh0 Hd).
+      * (* removing the temp path leaves the final path alone *)
+        assert (Hold : D (s_fs s) (w_base w, Dat) = Some (w_ino w)).
+        { destruct r; rewrite ?nth_error_map, ?Ew in Hd; cbn [option_map apply_rm] in Hd; cbn in Hd;
+            rewrite ?F3 in Hd; rewrite ?D_unlink, ?E1 in Hd; exact Hd. }
+        pose proof (l_post _ L _ _ Ew Hh0 Hold) as Hlp.
+        destruct r; rewrite ?nth_error_map, ?Ew; cbn [option_map]; cbn; rewrite ?Fl, ?Hlp; reflexivity.
+    + intros a' w2 Hne H2 Eb Hh2 Hd2.
+      assert (Hl2 : w_lay w2 = LNone) by (apply (others_none s a w L Ew Hnn a' w2 Hne H2 Eb)).
+      assert (Hold : D (s_fs s) (w_base w, Dat) = Some (w_ino w2)).
+      { destruct r; cbn [apply_rm] in Hd2; try exact Hd2. rewrite D_unlink in Hd2.
+        destruct (fname_eqb (w_base w, Dat) (w_base w, e)); [discriminate|exact Hd2]. }
+      rewrite <- Eb in Hold. pose proof (l_post _ L _ _ H2 Hh2 Hold). congruence.
+  - (* LRm *) step_inv H.
+    + cbn [guard_ok] in Hgd. apply linv_rm; assumption.
+    + exact L.
+    + exact L.
+  - (* LOpen *) step_inv H; destruct L; constructor; auto.
+  - (* LReadDir *) step_inv H. destruct L; constructor; auto.
+  - (* LParse *) step_inv H. exact L.
 Qed.
